@@ -897,14 +897,24 @@ def generate(ctx, res, hosts):
 # ---------------------------------------------------------------------------------------------
 # end-to-end stream: whole test cases through the real main program
 # ---------------------------------------------------------------------------------------------
+EXPECTED_TAIL = ' equals <<EOF_EXPECTED\n%sEOF_EXPECTED'
 E2E = [
-    # host index, simple context?, the instruction up to the expression, text after the expression, symbol type name
-    (0, False, 'exit-code ', '', 'integer-matcher'),
-    (1, True, 'contents f.txt : every line : ', '', 'line-matcher'),
-    (2, False, 'contents f.txt : ', '', 'text-matcher'),
-    (3, False, 'exists f.txt : ', '', 'file-matcher'),
-    (4, False, 'dir-contents d1 : ', '', 'files-matcher'),
-    (5, True, 'contents f.txt : -transformed-by ', ' equals <<EOF_EXPECTED\n%sEOF_EXPECTED', 'text-transformer'),
+    # host index, simple context?, the instruction up to the expression, text after the expression, symbol type name,
+    # primary (leaf truth / distinguishing triples are measured once per entry; triples only for primary entries)
+    (0, False, 'exit-code ', '', 'integer-matcher', True),
+    (0, False, 'def integer-matcher M9 = ', '\nexit-code M9', 'integer-matcher', False),
+    (1, True, 'contents f.txt : every line : ', '', 'line-matcher', True),
+    (1, False, 'def line-matcher M9 = ', '\ncontents f.txt : every line : M9', 'line-matcher', False),
+    (2, False, 'contents f.txt : ', '', 'text-matcher', True),
+    (2, False, 'stdout ', '', 'text-matcher', False),
+    (2, False, 'stderr ', '', 'text-matcher', False),
+    (2, False, 'def text-matcher M9 = ', '\ncontents f.txt : M9', 'text-matcher', False),
+    (3, False, 'exists f.txt : ', '', 'file-matcher', True),
+    (3, False, 'def file-matcher M9 = ', '\nexists f.txt : M9', 'file-matcher', False),
+    (4, False, 'dir-contents d1 : ', '', 'files-matcher', True),
+    (4, False, 'def files-matcher M9 = ', '\ndir-contents d1 : M9', 'files-matcher', False),
+    (5, True, 'contents f.txt : -transformed-by ', EXPECTED_TAIL, 'text-transformer', True),
+    (5, False, 'def text-transformer M9 = ', '\ncontents f.txt : -transformed-by M9' + EXPECTED_TAIL, 'text-transformer', False),
 ]
 E2E_FILE_TEXT = 'abcA\n'
 
@@ -939,24 +949,24 @@ class E2e:
             return 'VOther'
         return {'PASS': 'VPass', 'FAIL': 'VFail', 'SYNTAX_ERROR': 'VSyntax'}.get(first, 'VOther')
 
-    def init_host(self, hi):
+    def init_entry(self, entry):
+        hi, simple, pre, post, _, _ = entry
         host = HOSTS[hi]
-        _, simple, pre, post, _ = [x for x in E2E if x[0] == hi][0]
         tab = {}
         for i, s in list(enumerate(host['leaves'], 100)) + list(enumerate(SYM_NAMES, 200)):
-            v = self.run(hi, pre + s + (post % E2E_FILE_TEXT if post else ''))
+            v = self.run(hi, pre + s + (post % E2E_FILE_TEXT if '%s' in post else post))
             if v in ('VPass', 'VFail'):
                 tab[i] = (v == 'VPass')
-        self.leaf_truth[hi] = tab
         return tab
 
 
 class ECase:
-    __slots__ = ('hi', 'simple', 'toks', 'gen', 'source', 'spec', 'verdict', 'instruction')
+    __slots__ = ('hi', 'simple', 'toks', 'gen', 'source', 'spec', 'verdict', 'instruction', 'entry', 'kind')
 
     def describe(self):
         host = HOSTS[self.hi]
-        return {'host_type': host['name'], 'stream': 'end-to-end', 'instruction': self.instruction,
+        return {'host_type': host['name'], 'stream': 'end-to-end', 'host_instruction': self.entry,
+                'instruction': self.instruction,
                 'generating_tree': src_of_expr(host, erase(self.gen)) if self.gen is not None else None,
                 'verdict': self.verdict[1:],
                 'model_of_the_case': ('exit code 3; f.txt = "a\\n"; d1 = {g.txt}' if self.hi != 5 else
@@ -1001,14 +1011,14 @@ def context_split(src):
     return None
 
 
-def distinguishing_triples(e2e, hi, tab):
+def distinguishing_triples(e2e, entry, tab):
     """(context leaf C = CTX ARG, op, leaf R) for which the real program gives the explicitly parenthesised OTHER reading
     CTX ( ARG op R ) a verdict different from the value of ( CTX ARG ) op R: inputs on which a parser that lets the
     argument swallow the operator changes the verdict"""
+    hi, simple, pre, post, _, primary = entry
     host = HOSTS[hi]
-    _, simple, pre, post, _ = [x for x in E2E if x[0] == hi][0]
     out = []
-    if not host['matcher']:
+    if not host['matcher'] or not primary:
         return out
     for c in sorted(tab):
         sp = context_split(word_source(host, c)) if 100 <= c < 200 else None
@@ -1024,35 +1034,71 @@ def distinguishing_triples(e2e, hi, tab):
     return out
 
 
+def trailing_damage(rng, host, restricted):
+    """what may NOT follow a complete expression on the same line: a stray ')', a second complete expression, a
+    primitive without operator, a dangling word"""
+    leaf = ('w', False, 100 + rng.below(len(host['leaves'])))
+    options = [[('w', False, W_RP)], [('w', False, rng.choice([300, 301]))]]
+    if not restricted:
+        options += [[leaf], [('w', False, W_LP), leaf, ('w', False, W_RP)], [('w', False, 200 + rng.below(len(SYM_NAMES)))],
+                    [leaf, ('w', False, rng.choice(levels_of(host))), ('w', False, 100 + rng.below(len(host['leaves'])))],
+                    [('w', False, W_RP), ('w', False, rng.choice(levels_of(host))), leaf]]
+        if host['matcher']:
+            options.append([('w', False, W_NOT), leaf])
+    return rng.choice(options)
+
+
 def generate_e2e(ctx, hosts, tmp, res_counts):
     rng = ctx.rng
-    n_per = SIZES.get('override_e2e') or (60 if ctx.quick else 500)
+    scale = SIZES.get('override_e2e') or (60 if ctx.quick else 500)
     e2e = E2e(tmp)
     out = []
-    for hi, simple, pre, post, _ in E2E:
+    for entry in E2E:
+        hi, simple, pre, post, _, primary = entry
         host = HOSTS[hi]
-        tab = e2e.init_host(hi)
-        if hi == 0:
+        tab = e2e.init_entry(entry)
+        name = pre.strip().rstrip(':=').strip()
+
+        def instruction(src, expected=None):
+            return pre + src + (post % expected if '%s' in post else post)
+
+        if hi == 0 and primary:
             # regression corpus: the two reproductions of FIX-C06-1 (must be SYNTAX_ERROR)
             for toks, tail in [(x[2], x[3]) for x in CORPUS if x[0] == 0 and x[3] is not None]:
                 c = ECase()
-                c.hi, c.simple, c.gen, c.toks, c.spec = 0, False, None, toks, ('match', tab)
+                c.hi, c.simple, c.gen, c.toks, c.spec, c.entry = 0, False, None, toks, ('match', tab), name
                 c.instruction = pre + to_source(rng, host, toks)[0] + tail
                 c.verdict = e2e.run(0, c.instruction)
                 out.append(c)
         usable = sorted(tab) if host['matcher'] else sorted(hosts[hi].leaf_tab)
-        triples = distinguishing_triples(e2e, hi, tab)
-        res_counts['end-to-end: distinguishing (CTX ARG, op, REST) triples, ' + host['name']] = len(triples)
+        triples = distinguishing_triples(e2e, entry, tab)
+        if primary:
+            res_counts['end-to-end: distinguishing (CTX ARG, op, REST) triples, ' + host['name']] = len(triples)
         if len(usable) < 4:
-            raise RuntimeError('end-to-end: too few leaves usable for %s: %r' % (host['name'], usable))
+            raise RuntimeError('end-to-end: too few leaves usable for %s in `%s`: %r' % (host['name'], name, usable))
         n_lv = len(levels_of(host))
-        for _ in range(n_per):
-            def leaf_ok(x):
-                if x[0] == 'L':
-                    return x[1] in usable
-                if x[0] == 'P':
-                    return leaf_ok(x[2])
-                return all(leaf_ok(y) for y in x[2])
+        k = n_lv if simple else 0
+
+        def leaf_ok(x):
+            if x[0] == 'L':
+                return x[1] in usable
+            if x[0] == 'P':
+                return leaf_ok(x[2])
+            return all(leaf_ok(y) for y in x[2])
+
+        def spec_and_instruction(c, e, src):
+            if host['matcher']:
+                c.spec = ('match', tab)
+                c.instruction = instruction(src)
+            else:
+                right = apply_maps(hosts[hi], e, E2E_FILE_TEXT)
+                expected = right if rng.chance(0.6) else apply_maps(
+                    hosts[hi], ('I', W_PIPE, list(reversed(e[2]))) if e[0] == 'I' else e, E2E_FILE_TEXT)
+                c.spec = ('trans', hosts[hi].leaf_tab, expected)
+                c.instruction = instruction(src, expected)
+
+        # --- well-formed expressions (permitted and unpermitted layouts): the verdict is the value of the tree
+        for _ in range(scale * 2 // 3 if primary else scale // 3):
             while True:
                 if triples and rng.chance(0.5):
                     # CTX ARG op REST with REST chosen so that the two readings give different verdicts
@@ -1069,7 +1115,6 @@ def generate_e2e(ctx, hosts, tmp, res_counts):
                     e = gen_expr(rng, host, rng.weighted([(1, 3), (2, 6), (3, 4)]), rng.randint(2, 3))
                 if leaf_ok(e):
                     break
-            k = n_lv if simple else 0
             d = decorate(rng, host, e, k, rng.choice([0.0, 0.2, 0.4]), rng.choice([0.0, 0.3, 0.6]))
             d = set_leading_nl(d, 0) if rng.chance(0.7) else d
             r = rng.below(100)
@@ -1078,18 +1123,25 @@ def generate_e2e(ctx, hosts, tmp, res_counts):
             elif r < 85:
                 d = make_unpermitted(rng, host, make_permitted(host, d, False, k), False, k)
             c = ECase()
-            c.hi, c.simple, c.gen, c.toks = hi, simple, d, render(d)
-            src, _ = to_source(rng, host, c.toks)
-            if host['matcher']:
-                c.spec = ('match', tab)
-                c.instruction = pre + src
-            else:
-                right = apply_maps(hosts[hi], e, E2E_FILE_TEXT)
-                expected = right if rng.chance(0.6) else apply_maps(hosts[hi], ('I', W_PIPE, list(reversed(e[2]))) if e[0] == 'I' else e,
-                                                                    E2E_FILE_TEXT)
-                c.spec = ('trans', hosts[hi].leaf_tab, expected)
-                c.instruction = pre + src + (post % expected)
+            c.hi, c.simple, c.gen, c.toks, c.entry = hi, simple, d, render(d), name
+            spec_and_instruction(c, e, to_source(rng, host, c.toks)[0])
             c.verdict = e2e.run(hi, c.instruction)
+            out.append(c)
+        # --- a complete expression followed by trailing damage on the same line: must be a syntax error in EVERY host
+        #     instruction (the expression parser stops before the damage and relies on the host to refuse what is left)
+        for _ in range(max(8, scale // 5)):
+            while True:
+                e = gen_expr(rng, host, rng.randint(0, 2), 2)
+                if leaf_ok(e):
+                    break
+            d = make_permitted(host, decorate(rng, host, e, k, rng.choice([0.0, 0.0, 0.2]), rng.choice([0.0, 0.3])), False, k)
+            d = set_leading_nl(d, 0)
+            c = ECase()
+            c.hi, c.simple, c.gen, c.entry = hi, simple, None, name
+            c.toks = render(d) + trailing_damage(rng, host, restricted=(simple and bool(post)))
+            spec_and_instruction(c, e, to_source(rng, host, c.toks)[0].rstrip(' '))
+            c.verdict = e2e.run(hi, c.instruction)
+            c.kind = 'trailing damage'
             out.append(c)
     return out
 
@@ -1250,7 +1302,9 @@ def run(ctx, res):
     for c in ecases:
         res.count('stream: end-to-end')
         res.count('end-to-end verdict: ' + c.verdict[1:])
-        res.count('end-to-end host: ' + HOSTS[c.hi]['name'])
+        res.count('end-to-end host instruction: ' + c.entry)
+        if c.gen is None:
+            res.count('end-to-end: complete expression + trailing damage / corpus')
         if c.gen is not None and (len(n_ops(erase(c.gen))) >= 2 or any(t[0] == 'nl' for t in c.toks)):
             res.nontrivial.add(('e2e', c.hi, repr(c.gen)))
     for c in xcases:
